@@ -13,7 +13,7 @@ Theorem C03_fixed_memory_equals_line_mode :
   forall (o : opt) (so : sopt) (l0 : list bof) (input : bytes),
     from_vec l0 = Some (o_bounds o) ->
     Forall item_nz l0 -> Forall closed_ordered (bounds_only l0) -> no_adjacent_fillers l0 ->
-    stream_opt o = Some so -> N.eqb (s_delim so) (s_eol so) = false ->
+    stream_opt o = Some so ->
     Forall (fun r => r = [] \/ no_straddle (Z.of_nat (length (split_on (s_delim so) r))) (items (o_bounds o)))
            (records (s_eol so) input) ->
     Some (run_stream_whole so input) = read_and_cut_str o input.
@@ -25,7 +25,7 @@ Theorem C03_each_record :
     stream_opt o = Some so ->
     Forall item_nz (items (o_bounds o)) ->
     no_adjacent_fillers (items (o_bounds o)) -> bounds_only (items (o_bounds o)) <> [] ->
-    r <> [] -> bfree (s_eol so) r -> N.eqb (s_delim so) (s_eol so) = false ->
+    r <> [] -> bfree (s_eol so) r ->
     asc 0 (Z.of_nat (length (split_on (s_delim so) r))) (items (o_bounds o)) ->
     rec_chunks so (Normal (s_items so) 1 false) false ((r ++ s_eol so :: rest) :: cs) []
     = match cut_str o r with
